@@ -230,7 +230,24 @@ class HSFZConnection:
             return data
 
     async def _read_ack(self, prev_data: bytes) -> None:
-        unexpected_packets = []
+        unexpected_packets: list[HSFZDiagFrame | int] = []
+        try:
+            await self._wait_for_ack(prev_data, unexpected_packets)
+        finally:
+            # We do not want to consume packets that we were not expecting; add them to queue again,
+            # also when the wait ends without an ack (e.g. cancelled by the timeout of the caller).
+            # They arrived before everything which is still queued, so they go back in front of it;
+            # otherwise a later read returns responses out of order.
+            while not self._read_queue.empty():
+                unexpected_packets.append(self._read_queue.get_nowait())
+            for item in unexpected_packets:
+                self._read_queue.put_nowait(item)
+
+    async def _wait_for_ack(
+        self,
+        prev_data: bytes,
+        unexpected_packets: list[HSFZDiagFrame | int],
+    ) -> None:
         while True:
             hdr, req_hdr, data = await self._unpack_frame(await self.read_frame())
             if hdr.CWord != HSFZStatus.Ack:
@@ -251,14 +268,6 @@ class HSFZConnection:
                 )
                 unexpected_packets.append((hdr, req_hdr, data))
                 continue
-
-            # We do not want to consume packets that we were not expecting; add them to queue again.
-            # They arrived before everything which is still queued, so they go back in front of it;
-            # otherwise a later read returns responses out of order.
-            while not self._read_queue.empty():
-                unexpected_packets.append(self._read_queue.get_nowait())
-            for item in unexpected_packets:
-                self._read_queue.put_nowait(item)
 
             return
 
